@@ -359,6 +359,32 @@ def inst_snippet():
 
 _sn = Contract("pulsarbat.transforms.transforms.snippet", spec_snippet, inst_snippet(), props={"C12": None, "C01": TIME_PARTS})
 _sn.theorems = snippet_theorems
+
+
+def _snippet_tol(label, used):
+    """An absolute Time resolves the start only to ~1e-10 s (two-double JD): 'the same result up
+    to time resolution' -> the fractional offset, hence the interpolated data, may differ by
+    sample_rate * 1e-10 samples."""
+    from pyvc.concrete import Tol
+    if "t=time" in label:
+        sr = float(used.get("z_sr", 1))
+        return Tol(data_abs=1e-5 + 20 * sr * 1e-10, time_s=2e-10)
+    return None
+
+
+_sn.tol_fn = _snippet_tol
+
+
+def _snippet_skip(label, used):
+    """With an absolute Time the request is only known to ~1e-10 s: requests exactly on the
+    bounds (t = 0 or t + n = len) may legitimately fall on either side."""
+    if "t=time" in label and "t_s" in used:
+        ts, n, N = Fraction(used["t_s"]), int(used.get("n", 0)), int(used.get("z_N", 0))
+        return ts == 0 or ts + n == N
+    return False
+
+
+_sn.skip_fn = _snippet_skip
 CONTRACTS.append(_sn)
 
 
